@@ -52,6 +52,11 @@ Theorem C01_non_io_error_no_move : forall p rq limit rd,
   s_out (decode_run p rq limit rd) = OMem \/ s_out (decode_run p rq limit rd) = ORectOOB ->
   s_rd (decode_run p rq limit rd) = rd.
 Proof. exact non_io_error_no_move. Qed.
+(* once check_likely_overflow has passed, every allocation size and read length of a full-decode script is at most the
+   surface's byte length, which is at most i64::MAX: none of the script's u64 arithmetic can wrap *)
+Theorem C01_full_script_sizes : forall p fast W H, wf_pixel_info p -> likely_overflow p W H = false ->
+  Forall (fun e => eff_size e <= spec_len p W H /\ spec_len p W H <= I64MAX) (script_full p fast W H).
+Proof. exact full_script_sizes. Qed.
 
 Example C01_ex_truncated : s_out (decode_run (Fixed 4) (RFull 8 8 false) 65536 (mkReader 0 255 None)) = OIo.
 Proof. vm_compute. reflexivity. Qed.
@@ -59,5 +64,5 @@ Example C01_ex_fault : s_out (decode_run (Block 8 4 4) (RFull 8 8 false) 65536 (
 Proof. vm_compute. reflexivity. Qed.
 
 Definition C01_all := (C01_surface_bytes_inner_fits, C01_surface_bytes_checked, C01_layout_decides, C01_layout_iterators_total,
-  C01_parsed_is_wf, C01_full_decode_short_or_faulty, C01_non_io_error_no_move).
+  C01_parsed_is_wf, C01_full_decode_short_or_faulty, C01_non_io_error_no_move, C01_full_script_sizes).
 Redirect "props/C01.assumptions" Print Assumptions C01_all.
